@@ -178,7 +178,7 @@ func checkPairing(c *Check) {
 		classify := func(n ast.Node) (string, int) {
 			switch s := n.(type) {
 			case *ast.IncDecStmt:
-				if v := fieldOf(info, s.X); v != nil && v.Name() == "LoopDepth" {
+				if v := fieldOf(info, s.X); v != nil && nameIs(v, "LoopDepth") {
 					if s.Tok == token.INC {
 						return "LoopDepth", +1
 					}
@@ -203,7 +203,7 @@ func checkPairing(c *Check) {
 				}
 			case *ast.AssignStmt:
 				if len(s.Lhs) == 1 {
-					if v := fieldOf(info, s.Lhs[0]); v != nil && v.Name() == "currentFunction" && isField(v, "parser", "parser", "currentFunction") {
+					if v := fieldOf(info, s.Lhs[0]); v != nil && nameIs(v, "currentFunction") && isField(v, "parser", "parser", "currentFunction") {
 						if info.Types[s.Rhs[0]].IsNil() {
 							return "currentFunction", -1
 						}
@@ -408,7 +408,47 @@ func guardAtoms(L *Loaded, fi *FuncInfo, n ast.Node) []string {
 					case *ast.ForStmt:
 						fromExpr(st.Cond, 0)
 					}
-					_ = i
+					// guard clauses: an earlier `if c { ...; return/continue/break }` of the same statement list also
+					// decides whether the node is reached
+					var list []ast.Stmt
+					switch st := s.(type) {
+					case *ast.BlockStmt:
+						list = st.List
+					case *ast.CaseClause:
+						list = st.Body
+					}
+					if list != nil && i+1 < len(stack) {
+						for _, prev := range list {
+							if ast.Node(prev) == stack[i+1] {
+								break
+							}
+							is, ok := prev.(*ast.IfStmt)
+							if !ok || is.Else != nil || len(is.Body.List) == 0 {
+								continue
+							}
+							leaves := false
+							switch last := is.Body.List[len(is.Body.List)-1].(type) {
+							case *ast.ReturnStmt:
+								leaves = true
+							case *ast.BranchStmt:
+								leaves = last.Tok == token.CONTINUE || last.Tok == token.BREAK || last.Tok == token.GOTO
+							case *ast.ExprStmt:
+								if call, ok := last.X.(*ast.CallExpr); ok {
+									leaves = L.noReturn(fi.Pkg, call)
+								}
+							}
+							if leaves {
+								fromExpr(is.Cond, 0)
+								if is.Init != nil {
+									if as, ok := is.Init.(*ast.AssignStmt); ok {
+										for _, r := range as.Rhs {
+											fromExpr(r, 1)
+										}
+									}
+								}
+							}
+						}
+					}
 				}
 				return false
 			}
@@ -446,7 +486,7 @@ func collectEmissions(L *Loaded) []emission {
 			if fn == nil {
 				return true
 			}
-			switch fn.Name() {
+			switch canonName(fn) {
 			case "err", "errExpr", "errVal", "New":
 			default:
 				return true
@@ -456,7 +496,7 @@ func collectEmissions(L *Loaded) []emission {
 				return true
 			}
 			cst, ok := info.Uses[sel.Sel].(*types.Const)
-			if !ok || cst.Pkg() == nil || cst.Pkg().Name() != "ddperror" {
+			if !ok || cst.Pkg() == nil || !nameIs(cst.Pkg(), "ddperror") {
 				return true
 			}
 			out = append(out, emission{fi, call, cst.Name(), guardAtoms(L, fi, call)})
@@ -611,10 +651,10 @@ func checkC04SpeculativeErrors(c *Check) {
 		ga := L.CFG(af)
 		mfa := &mustFlow{G: ga, Init: 0, Transfer: func(n ast.Node, s uint32) uint32 {
 			callsIn(n, func(call *ast.CallExpr) {
-				if fn := Callee(info, call); fn != nil && fn.Name() == "apply" && len(call.Args) == 2 && strings.HasSuffix(types.ExprString(call.Args[0]), "errorHandler") {
+				if fn := Callee(info, call); fn != nil && nameIs(fn, "apply") && len(call.Args) == 2 && strings.HasSuffix(types.ExprString(call.Args[0]), "errorHandler") {
 					s |= 1
 				}
-				if fn := Callee(info, call); fn != nil && fn.Name() == "checkAlias" {
+				if fn := Callee(info, call); fn != nil && nameIs(fn, "checkAlias") {
 					s &^= 1 // a new candidate's diagnostics are pending
 				}
 			})
